@@ -211,6 +211,38 @@ def g1_cast_is_round(ctx: Ctx):
 STORAGE = 'fpy2/backend/cpp/storage_infer.py'
 
 
+def g3_specialisation_keys(ctx: Ctx):
+    """A helper called with float arguments at one site and double arguments at another is compiled twice: the copies
+    are told apart by a key that fingerprints the argument formats.  Two vectors that differ in any informative entry
+    must get different fingerprints -- C++ converts scalars implicitly, so a call that lands on the wrong copy still
+    compiles and silently narrows its argument.  `_arg_fmts_fingerprint` is evaluated, from its source, on vectors that
+    mix an uninformative entry (a bool parameter has no format) with informative ones."""
+    import hashlib
+
+    from ..minipy import Interp, Obj
+    SPEC = 'fpy2/transform/specialize.py'
+    funcs = {s.name: s for s in ctx.repo.module(SPEC).tree.body if isinstance(s, ast.FunctionDef)}
+    fn = funcs.get('_arg_fmts_fingerprint')
+    if fn is None:
+        raise ShapeError('_arg_fmts_fingerprint not found')
+    REALF = Obj('RealFormat')
+    F32, F64 = Obj('IEEEFormat', es=8, nbits=32), Obj('IEEEFormat', es=11, nbits=64)
+
+    def fp(v):
+        it = Interp(funcs, globals_={'REAL_FORMAT': REALF}, overrides={'hashlib.sha1': lambda b: Obj('sha1', hexdigest=lambda b=b: hashlib.sha1(b).hexdigest())})
+        return it.call_function(fn, [v])
+    rows = [
+        ('(float, bool) vs (double, bool)', (F32, None), (F64, None), True), ('(bool, float) vs (bool, double)', (None, F32), (None, F64), True),
+        ('(real, float) vs (real, double)', (REALF, F32), (REALF, F64), True), ('(float, double) vs (double, float)', (F32, F64), (F64, F32), True),
+        ('(float,) vs (double,)', (F32,), (F64,), True), ('(bool, real) twice', (None, REALF), (None, REALF), False),
+    ]
+    for label, a, b, differ in rows:
+        ka, kb = fp(a), fp(b)
+        ctx.check((ka != kb) == differ, SPEC, fn, '_arg_fmts_fingerprint', f'{label}: {"different" if differ else "the same"} fingerprint',
+                  f'fingerprints {ka!r} and {kb!r}: scale(v, neg: bool) called with a float and with a double shares one compiled copy, and the double argument is narrowed to float')
+    ctx.check(fp(None) == '' and fp((None, REALF)) == '', SPEC, fn, '_arg_fmts_fingerprint', 'no formats, or uninformative ones only: the polymorphic copy (empty fingerprint)', 'changed')
+
+
 def g2_reference_binding(ctx: Ctx):
     """`ys = xs` may be emitted as `const auto& ys = xs;` only while `xs` keeps naming that list: a later `xs = [...]`
     leaves FPy's `ys` on the old list but drags a C++ reference along.  Every arm of `binds_by_reference` that answers
@@ -465,6 +497,7 @@ RULES = [
     Rule('C11.P1', 'fesetround save/set/restore pairing on every exit, including return', p1_fenv_pairing, 8, 'P'),
     Rule('C11.X1', 'every node kind is emitted or refused; no signature => CppEmitError; widening only under REAL', x1_emit_or_refuse, 40, 'X'),
     Rule('C11.G1', 'explicit roundings are emitted as casts only when the context is exactly a machine format', g1_cast_is_round, 5, 'G'),
+    Rule('C11.G3', 'compiled copies of a helper are keyed by every informative argument format', g3_specialisation_keys, 7, 'G'),
     Rule('C11.G2', 'a list name is bound as a C++ reference to another variable only when neither is ever rebound', g2_reference_binding, 4, 'G'),
     Rule('C11.T2', 'the interpreter gives an exact zero sum the sign the machine gives it (-0 under round-toward-negative)', t2_zero_sums, 4, 'T'),
     Rule('C11.P2', 'range loops: the exit test follows the sign of the step; stop and step are fixed before the first trip', p2_range_loops, 11, 'P,T'),
@@ -475,6 +508,9 @@ RULES = [
 from ..selftest import Mutant  # noqa: E402
 
 MUTANTS = [
+    Mutant('one-uninformative-argument-drops-the-key', 'fpy2/transform/specialize.py', "    if arg_fmts is None or all(_is_trivial_fmt(f) for f in arg_fmts):", "    if arg_fmts is None or any(_is_trivial_fmt(f) for f in arg_fmts):", 'C11.G3',
+           'seeded change C11e: scale(x: float, False) and scale(y: double, True) share the float copy'),
+    Mutant('key-from-the-first-argument-only', 'fpy2/transform/specialize.py', "    parts = [repr(f) if f is not None else 'X' for f in arg_fmts]", "    parts = [repr(f) if f is not None else 'X' for f in arg_fmts[:1]]", 'C11.G3'),
     Mutant('range-bound-from-the-positive-end', 'fpy2/analysis/format_infer/analysis.py', "        b = RealFloat.from_int(max(abs(start), abs(last)))", "        b = RealFloat.from_int(abs(max(start, last)))", 'C11.T3',
            'seeded change C11d: `for i in range(-300, 20): k = i * 3` stores k in an int8_t'),
     Mutant('cancellation-is-plus-zero-in-every-mode', 'fpy2/ops.py', "    if cancelled and len(set(negative)) > 1 and getattr(ctx, 'rm', None) is RM.RTN:\n        return Float(s=True, c=0)\n", "", 'C11.T2',
